@@ -19,6 +19,14 @@ type targetReq struct {
 	// Reuse: pass the very slice object of the previous request again (a caller that keeps one
 	// []string of "$VAR/..." sources and calls repeatedly while the environment changes)
 	Reuse bool `json:"reuse"`
+	// Touch: modification times set (relative to Root) before the call - one large tree serves many cases that
+	// differ in which entry decides
+	Touch []touchReq `json:"touch,omitempty"`
+}
+
+type touchReq struct {
+	Path  string `json:"path"`
+	Mtime int64  `json:"mtime"`
 }
 
 var targetLastSources []string
@@ -40,6 +48,12 @@ func init() {
 		}
 		if err := os.Chdir(q.Root); err != nil {
 			return map[string]string{"error": err.Error()}
+		}
+		for _, t := range q.Touch {
+			tm := time.Unix(0, t.Mtime)
+			if err := os.Chtimes(t.Path, tm, tm); err != nil {
+				return map[string]string{"error": err.Error()}
+			}
 		}
 		for _, k := range targetEnvSet {
 			os.Unsetenv(k)
